@@ -57,3 +57,64 @@ const NETCODE_CONNECT_TOKEN_XNONCE_BYTES: usize = 24;
 
 const NETCODE_ADDITIONAL_DATA_SIZE: usize = 13 + 8 + 8;
 const NETCODE_SEND_RATE: Duration = Duration::from_millis(250);
+
+/// Verification hooks: the crate's own packet codec, token sealing and replay window, so that
+/// external conformance harnesses can craft and open datagrams without duplicating the formats.
+#[cfg(feature = "verif")]
+pub mod verif {
+    use std::net::SocketAddr;
+
+    pub use crate::packet::{ChallengeToken, Packet, PacketType};
+    pub use crate::replay_protection::ReplayProtection;
+
+    /// Public mirror of the crate-private `PrivateConnectToken`.
+    #[derive(Debug, Clone, PartialEq, Eq)]
+    pub struct PrivateToken {
+        pub client_id: u64,
+        pub timeout_seconds: i32,
+        pub server_addresses: [Option<SocketAddr>; 32],
+        pub client_to_server_key: [u8; crate::NETCODE_KEY_BYTES],
+        pub server_to_client_key: [u8; crate::NETCODE_KEY_BYTES],
+        pub user_data: [u8; crate::NETCODE_USER_DATA_BYTES],
+    }
+
+    /// Seals a private token with `PrivateConnectToken::encode`.
+    pub fn private_token_encode(
+        token: &PrivateToken,
+        protocol_id: u64,
+        expire_timestamp: u64,
+        xnonce: &[u8; 24],
+        private_key: &[u8; 32],
+    ) -> Result<[u8; 1024], crate::TokenGenerationError> {
+        let inner = crate::token::PrivateConnectToken {
+            client_id: token.client_id,
+            timeout_seconds: token.timeout_seconds,
+            server_addresses: token.server_addresses,
+            client_to_server_key: token.client_to_server_key,
+            server_to_client_key: token.server_to_client_key,
+            user_data: token.user_data,
+        };
+        let mut buffer = [0u8; 1024];
+        inner.encode(&mut buffer, protocol_id, expire_timestamp, xnonce, private_key)?;
+        Ok(buffer)
+    }
+
+    /// Opens a private token with `PrivateConnectToken::decode`.
+    pub fn private_token_decode(
+        buffer: &[u8; 1024],
+        protocol_id: u64,
+        expire_timestamp: u64,
+        xnonce: &[u8; 24],
+        private_key: &[u8; 32],
+    ) -> Result<PrivateToken, crate::TokenGenerationError> {
+        let inner = crate::token::PrivateConnectToken::decode(buffer, protocol_id, expire_timestamp, xnonce, private_key)?;
+        Ok(PrivateToken {
+            client_id: inner.client_id,
+            timeout_seconds: inner.timeout_seconds,
+            server_addresses: inner.server_addresses,
+            client_to_server_key: inner.client_to_server_key,
+            server_to_client_key: inner.server_to_client_key,
+            user_data: inner.user_data,
+        })
+    }
+}
